@@ -29,6 +29,11 @@ using namespace sim::asio;
 
 namespace sim
 {
+#ifdef LIBSIMULATOR_VERIF
+	// called by run() after every handler execution. null by default.
+	void (*verif_step_hook)(int kind) = nullptr;
+#endif
+
 	simulation::simulation(configuration& config)
 		: m_config(config)
 		, m_internal_ios(new asio::io_context(*this))
@@ -52,7 +57,18 @@ namespace sim
 		do {
 
 			m_service.restart();
+#ifdef LIBSIMULATOR_VERIF
+			// verification hook: poll one handler at a time and report every
+			// event boundary to the harness
+			last_executed = 0;
+			while (m_service.poll_one() > 0)
+			{
+				++last_executed;
+				if (verif_step_hook) verif_step_hook(0);
+			}
+#else
 			last_executed = m_service.poll();
+#endif
 			ret += last_executed;
 
 			chrono::high_resolution_clock::time_point now
